@@ -15,7 +15,10 @@ import (
 )
 
 func readRules(input io.Reader) ([]rule, error) {
-	rules := defaultExclusions
+	// Start from a private copy of the default rules: the loop below flags
+	// earlier rules in place, which must not leak into the shared defaults
+	// (or into rulesets parsed before or concurrently).
+	rules := append([]rule(nil), defaultExclusions...)
 	scanner := bufio.NewScanner(input)
 	scanner.Split(bufio.ScanLines)
 	currentRuleIndex := len(defaultExclusions) - 1
